@@ -41,6 +41,9 @@ TWIN_OF = {"tw_serial_rsa": "rsa", "tw_serial_ec": "ec", "tw_serial_ca": "ca_ec"
 # host names that differ only in a character SQL's LIKE treats as a wildcard (`_` one character, `%` any run)
 LOOKALIKES = ["my_host.test", "my-host.test", "myxhost.test", "my%host.test", "fe80::1%lo", "fe80::1%xlo"]
 
+# absolute DNS names (trailing dot): another spelling in the URL, the same loopback peers
+DOTTED = ["localhost.", "my-host.test."]
+
 
 def _name(cn):
     from cryptography import x509
